@@ -89,6 +89,13 @@ func (p *Pike) SetClockOffset(off int64) {
 	os.Rename(tmp, p.ClockFile)
 }
 
+// SetClockAbs an absolute time replacing the real clock inside pike (re-read on every clock call)
+func (p *Pike) SetClockAbs(v int64) {
+	tmp := p.ClockFile + ".tmp"
+	os.WriteFile(tmp, []byte("="+strconv.FormatInt(v, 10)), 0644)
+	os.Rename(tmp, p.ClockFile)
+}
+
 // Start launches the process and waits until every addr listens
 func (p *Pike) Start(waitAddrs []string, d time.Duration) (time.Duration, error) {
 	p.mu.Lock()
